@@ -48,6 +48,10 @@ def acts(t):
     return t == ThreatLevel.CONFIRMED or t == ThreatLevel.CRITICAL
 
 
+construct("BaselineProfile", "operon_ai.surveillance.thymus", {"agent_id": "a", "output_length_bounds": (0.0, 1.0), "response_time_bounds": (0.0, 1.0), "confidence_bounds": (0.0, 1.0), "error_rate_max": 0.1, "valid_vocabulary_hashes": set(), "valid_structure_hashes": set(), "canary_accuracy_min": 0.5})
+construct("TCell", "operon_ai.surveillance.tcell", {"profile": "@new:BaselineProfile"})
+construct("RegulatoryTCell", "operon_ai.surveillance.treg", {})
+
 contract(D + "thymus.py::BaselineProfile.check", "C17", params={"peptide": "obj:MHCPeptide"}, raises=[],
          inline=False, returns="list:str", modifies=[],
          ensures={"no-violation-iff-in-baseline": "(len(result) == 0) == in_baseline(self, peptide)"})
